@@ -98,3 +98,17 @@ PROPS["C08"] = {
     "rule": "seeded ASTs with years/dates biased to 1900, 1901, 9998, 9999 and '+' forms, a third biased to long intervals, holiday calendars with dates outside the range x 2 instants each from 8 classes (just before/after 1900 and 10000, far before/after, the year before 1900, the last year) x a window of 1..30 days from the instant. Non-trivial = expression with a selector; distinct by hash of (AST, context, instant).",
     "assumptions": ["schedule_at is the pointwise truth inside the range (C01)", "state at chrono's very last representable minute is outside the property's stated range and is not probed"],
 }
+
+PROPS["C06"] = {
+    "technique": "self-consistency monitor: print -> parse -> evaluate both sides on boundary-biased days (kinds and comment sets), for expressions and their normal forms",
+    "level_text": "Every generated expression (all Display branches: year steps, dated months, offsets, nth lists, holiday offsets, week ranges, open ends, repeats, event offsets, comments, the three separators) is printed by the library, reparsed, and both values are evaluated on days derived from both ASTs +-2, month starts and random days, comparing kinds per minute range and comments as sets after splitting on ', '; the same for the normal form. Exploration. The Python str/repr part of the property is observed by the C12 driver.",
+    "rule": "seeded ASTs as in C01/C05 x holiday context x ~48 targeted + 32 random + 24 month-boundary days (thorough: + 400-day sweep). Non-trivial = expression with a selector; distinct by hash of the AST.",
+    "assumptions": ["the library's evaluator is used on both sides (self-consistency)", "comment comparison is modulo joining with ', ' as the property allows"],
+}
+
+PROPS["C07"] = {
+    "technique": "self-consistency monitor: original vs normalized expression evaluated on boundary-biased days; known finding D11 classified by trigger predicate after shrinking",
+    "level_text": "Generated expressions, weighted towards canonical rules with overlapping selectors mixed with non-canonical rules, all operators and kinds, are normalized and both forms evaluated (schedule kinds per minute range and state at probed instants) on days derived from both forms' selectors +-2, every month boundary of a year and random days. Exploration; the evidence counts how many inputs were folded, emitted an additional rule, or changed at all.",
+    "rule": "seeded ASTs with 80% canonical rules (plain ranges in every dimension) in 4 of 5 shards x holiday context x ~64 targeted + 40 random + 24 month-boundary days (thorough: + 800-day sweep). Non-trivial = >= 2 rules and the normal form differs from the input; distinct by hash of the AST.",
+    "assumptions": ["the library's evaluator is used on both sides (self-consistency)", "listed finding D11 (commentless_closed_before_midnight_span) is reported as KNOWN-FINDING, any failing reduction outside its trigger as VIOLATION"],
+}
